@@ -661,6 +661,27 @@ CAMPAIGNS['C06'].append(camp(
     '(recursive / same-named nesting): a version change of a function that '
     'is only reached below a same-named call', post='tag_versions',
     weight=0.6))
+CAMPAIGNS['C04'].append(camp(
+    'c04-chains-faults', 'C04',
+    dict(NESTED_FAIL, p_chain=0.9, p_mutate_step=0.05, p_clean_step=0.0,
+         n_steps=(2, 4), p_catch=0.95, w_probe=10, p_q_near_output=0.8),
+    'the view right after a cached tree of three and more nested outputs '
+    'could only partly be re-applied (mkdir / rename failing at every index, '
+    'caught by the caller): reservations of the enclosing outputs are '
+    'released, their directories are gone from the view',
+    mode='oserror-sweep', nontrivial=nt_rollback_restored, chunk=6, follow=1,
+    torn=False, errnos=['EACCES', 'ENOSPC'], weight=0.7,
+    sweep_max={'quick': 12, 'thorough': None}))
+CAMPAIGNS['C09'].append(
+    camp('c09-reuse-sweep', 'threads',
+         {'p_seq_first': 1.0, 'p_in_sub': 0.0, 'p_in_file': 0.0,
+          'p_tamper': 0.15, 'n_threads': (2, 3)},
+         THREAD_RULE + '; the first build is sequential, so that the '
+         'threaded build mostly *reuses* cached subtrees while other threads '
+         'look at the files in them: complete single-preemption sweep of '
+         'that build', mode='sched-sweep', nontrivial=nt_threads, chunk=3,
+         post='tag_all:C09', weight=0.8,
+         sweep_max={'quick': 16, 'thorough': None}))
 RACE_RULE = ('a key (build_file path / subbuild name+arguments) performed '
              'directly by one thread while another thread reuses or '
              're-executes a cached subtree (depth 1-2) that contains it; '
